@@ -546,8 +546,12 @@ def evaluate(run, want=None):
                     I.v("C03", "round %d cluster %d: computed covariance missing or non-finite" % (r, k))
                 I.c("mrfs_checked")
         # the table that drove this round's labelling
-        if r < len(run.label_steps) and precondition_ok:
-            step = run.label_steps[r]
+        steps_r = [s_ for s_ in run.label_steps if s_.get("round") == r]
+        whole = [s_ for s_ in steps_r if np.asarray(s_["table"]).shape[0] == Tp]
+        if len(steps_r) != 1 or len(whole) != 1:
+            I.c("rounds_whose_labelling_was_not_one_whole_kernel_call")     # e.g. a block-wise driver: per-call oracles do not apply
+        if len(steps_r) == 1 and len(whole) == 1 and precondition_ok:
+            step = whole[0]
             table = -np.asarray(step["table"], dtype=np.float64)
             mus = [a_["stacked_data_mean"] for a_ in lb["inp"]["arrays"]]
             ths = [a_["train_inverse"] for a_ in lb["inp"]["arrays"]]
@@ -730,8 +734,14 @@ def evaluate(run, want=None):
     expect = -float(res.overall_log_likelihood) + sw_within      # the property relates the result's own fields
     got = float(res.label_assignment_cost)
     beta_seen = None
-    if run.label_steps:
-        beta_seen = lab.beta_vector(np.asarray(run.label_steps[-1]["beta"], dtype=np.float64), Tp)
+    last_steps = [s_ for s_ in run.label_steps if s_.get("round") == R - 1 and np.asarray(s_["table"]).shape[0] == Tp]
+    if len(last_steps) == 1:
+        try:
+            beta_seen = lab.beta_vector(np.asarray(last_steps[0]["beta"], dtype=np.float64), Tp)
+        except ValueError:
+            beta_seen = None
+    if beta_seen is None and not joint:
+        beta_seen = beta_vec.copy()        # the labelling was not one whole kernel call: the caller's cost is what must have been priced
     if beta_seen is not None and not joint and not np.array_equal(beta_seen[:max(Tp - 1, 0)], beta_vec[:max(Tp - 1, 0)]):
         for pr in ("C06", "C07"):
             I.v(pr, "the switching cost that reached the labelling step is not the caller's (first difference at pair %d: %r vs %r)" % (
